@@ -3,6 +3,7 @@ package jsontext
 import (
 	"bytes"
 	"io"
+	"sync"
 
 	"github.com/go-json-experiment/json/internal/jsonwire"
 	"github.com/go-json-experiment/json/internal/zzverif/vrt"
@@ -174,6 +175,19 @@ func zz18Call(op, opt int, in []byte) (r zz18Res) {
 	return r
 }
 
+// zz18FreshPools replaces the package's coder pools by empty ones, so that the next Get of
+// each pool calls New: the state of "no earlier call". (Under the engine PoolFresh has the same
+// effect for the reference run; natively this makes the replayed run equally independent of
+// whatever ran earlier in the test process.)
+func zz18FreshPools() {
+	bufferedEncoderPool = &sync.Pool{New: func() any { return new(Encoder) }}
+	streamingEncoderPool = &sync.Pool{New: func() any { return new(Encoder) }}
+	bytesBufferEncoderPool = &sync.Pool{New: func() any { return new(Encoder) }}
+	bufferedDecoderPool = &sync.Pool{New: func() any { return new(Decoder) }}
+	streamingDecoderPool = &sync.Pool{New: func() any { return new(Decoder) }}
+	bytesBufferDecoderPool = bufferedDecoderPool
+}
+
 // zz18Reader hands out data in fixed chunks.
 type zz18Reader struct {
 	data  []byte
@@ -240,7 +254,8 @@ func zz18Input(name, tmpl string, alpha int) []byte {
 // VerifC18Hist: the result of call B on input b (bytes, verdict, error class, error offset and
 // pointer) is the same whether B runs on brand-new coders (pool policy: Get always calls New)
 // or after an arbitrary earlier call A on an independent input a whose coders B then
-// recycles (Get returns the most recently Put coder). opA < 0: the kind of A is chosen by the
+// recycles (Get returns the most recently Put coder); A itself starts from empty pools, so
+// the history of B is exactly A. opA < 0: the kind of A is chosen by the
 // solver among all kinds; optA < 0: its option set among {1, 4, 7, 0}.
 func VerifC18Hist(opA, optA int, tmplA string, alphaA int, opB, optB int, tmplB string, alphaB int) {
 	if opA < 0 {
@@ -252,9 +267,11 @@ func VerifC18Hist(opA, optA int, tmplA string, alphaA int, opB, optB int, tmplB 
 	a := zz18Input("a", tmplA, alphaA)
 	b := zz18Input("b", tmplB, alphaB)
 
+	zz18FreshPools()
 	vrt.PoolPolicy(vrt.PoolFresh)
 	r0 := zz18Call(opB, optB, bytes.Clone(b))
 	vrt.PoolPolicy(vrt.PoolEither)
+	zz18FreshPools()
 	ra := zz18Call(opA, optA, a)
 	r1 := zz18Call(opB, optB, bytes.Clone(b))
 
@@ -282,9 +299,11 @@ func VerifC18Hist(opA, optA int, tmplA string, alphaA int, opB, optB int, tmplB 
 // finally discarded (fifth under-utilised use) and re-allocated.
 func VerifC18Strikes(levels, k, opB, optB int, tmplB string) {
 	b := zz18Input("b", tmplB, 3)
+	zz18FreshPools()
 	vrt.PoolPolicy(vrt.PoolFresh)
 	r0 := zz18Call(opB, optB, bytes.Clone(b))
 	vrt.PoolPolicy(vrt.PoolEither)
+	zz18FreshPools()
 	big := zz20Deep(1, 0, levels, []byte("1"))
 	ra := zz18Call(zz18Format, 1, big)
 	vrt.Assert("C18/strikes/big-call-ok", ra.ok && len(ra.out) > 4096)
@@ -301,20 +320,24 @@ func VerifC18Strikes(levels, k, opB, optB int, tmplB string) {
 	vrt.Cover("end")
 }
 
-// VerifC18Hist3: as VerifC18Hist with two earlier calls A1, A2 whose kinds and option sets
-// are chosen by the solver among all call kinds / option sets.
+// VerifC18Hist3: as VerifC18Hist with two earlier calls A1, A2 whose kinds are chosen by the
+// solver among {IsValid, Format, Canonicalize, decLoop, encLoop} and whose option sets among
+// {1, 4} for A1 and {7, 0} for A2.
 func VerifC18Hist3(tmplA1 string, tmplA2 string, alphaA int, opB, optB int, tmplB string, alphaB int) {
 	a1 := zz18Input("a1", tmplA1, alphaA)
 	a2 := zz18Input("a2", tmplA2, alphaA)
 	b := zz18Input("b", tmplB, alphaB)
-	opA1 := vrt.Choice("opA1", zz18NumCalls)
-	optA1 := vrt.Choice("optA1", 8)
-	opA2 := vrt.Choice("opA2", zz18NumCalls)
-	optA2 := vrt.Choice("optA2", 8)
+	kinds := [...]int{zz18IsValid, zz18Format, zz18Canonicalize, zz18DecLoop, zz18EncLoop}
+	opA1 := kinds[vrt.Choice("opA1", len(kinds))]
+	optA1 := [...]int{1, 4}[vrt.Choice("optA1", 2)]
+	opA2 := kinds[vrt.Choice("opA2", len(kinds))]
+	optA2 := [...]int{7, 0}[vrt.Choice("optA2", 2)]
 
+	zz18FreshPools()
 	vrt.PoolPolicy(vrt.PoolFresh)
 	r0 := zz18Call(opB, optB, bytes.Clone(b))
 	vrt.PoolPolicy(vrt.PoolEither)
+	zz18FreshPools()
 	zz18Call(opA1, optA1, a1)
 	zz18Call(opA2, optA2, a2)
 	r1 := zz18Call(opB, optB, bytes.Clone(b))
